@@ -324,8 +324,9 @@ def get_edges(blocks, first_edge=0, polarity=0, analyse=False):
                     for j in range(8 if k < len(data) else timings.used_bits):
                         for d in timings.one if b & 0x80 else timings.zero:
                             tstates += d
-                            if len(edges) > 1 and edges[-1] == tstates:
+                            if len(edges) - 1 > start and edges[-1] == tstates:
                                 # Two level changes at the same instant cancel out
+                                # (but an edge that precedes this block stays put)
                                 edges.pop()
                             else:
                                 edges.append(tstates)
